@@ -262,6 +262,8 @@ class Gram:
         for i, root in enumerate(self.rules):
             d = self.disp[i] if i < len(self.disp) else ""
             out.append("%s%s <- %s\n" % (self.rname(i + 1), (' "%s"' % d) if d else "", self.render(root, -1)))
+        if getattr(self, "oneline", False):       # all rules of the group on ONE source line, separated by semicolons
+            return " ; ".join(x.rstrip("\n") for x in out) + "\n"
         return "".join(out)
 
     def to_case(self):
